@@ -27,6 +27,8 @@ import (
 //	'p' prompt reader: receives for ever, never leaves
 //	's' slow reader: receives k values, stops reading, then cancels its context
 //	'x' stalled: never reads; cancels its context at some later moment
+//	'q' prompt reader that cancels its context at some later moment (own
+//	    thread, like 'x'; it keeps reading)
 type sub struct {
 	kind byte
 	k    int  // values read by a slow reader
@@ -44,6 +46,7 @@ type scen struct {
 	// whose Broadcast call returned before Close was called (see NOTES.md,
 	// "reading of 'while the broadcaster is open'"); own finding key.
 	strict bool
+	class  string // finding key; default: by the kinds of subscribers and Close
 }
 
 func (s scen) nvals() int {
@@ -202,7 +205,7 @@ func mkExec(s scen) *mc.Exec {
 				sr.got = append(sr.got, recv{v, after})
 			}
 			switch x.kind {
-			case 'p':
+			case 'p', 'q':
 				mc.GoNamed(fmt.Sprintf("reader%d", i), func() {
 					for {
 						read()
@@ -236,7 +239,7 @@ func mkExec(s scen) *mc.Exec {
 		// stalled subscribers leave last in the default order: by then a
 		// Broadcast may be parked on their full buffer
 		for i, x := range s.subs {
-			if x.kind == 'x' {
+			if x.kind == 'x' || x.kind == 'q' {
 				i := i
 				mc.GoNamed(fmt.Sprintf("leave%d", i), func() {
 					subs[i].cancelled = true
@@ -432,11 +435,15 @@ const (
 	classClose  = "broadcaster/close"
 	classLeaveC = "broadcaster/departing-subscriber-and-close"
 	classStrict = "broadcaster/close-drops-accepted-values"
+	classDuring = "broadcaster/departure-during-delivery"
 )
 
 func classOf(s scen) string {
 	if s.strict {
 		return classStrict
+	}
+	if s.class != "" {
+		return s.class
 	}
 	leaving := false
 	for _, x := range s.subs {
@@ -591,6 +598,29 @@ func scaledScenarios() []hx.Scenario {
 						add(s, false, 2, 2, false)
 					case nv == 1, len(shape) == 1 && nv == 2, nv == 2 && c < 0:
 						add(s, false, 1, 1, false)
+					}
+				}
+			}
+		}
+	}
+	// a subscriber leaves while a Broadcast is in progress: FOUR subscribers
+	// [A prompt, B stalled / slow with a full buffer, C prompt, D prompt]; the
+	// 4th value parks the Broadcast on B; A, earlier in the list, cancels (its
+	// leave thread runs before B's in the default order) and its cleanup edits
+	// the list under the parked Broadcast; then B leaves. C and D stay: every
+	// value exactly once, one common order.
+	for _, bsub := range []sub{{kind: 'x'}, {kind: 's', k: 1}} {
+		q := sub{kind: 'q'}
+		p := sub{kind: 'p'}
+		for _, ss := range [][]sub{{q, bsub, p, p}, {p, bsub, q, p}} {
+			for _, shape := range [][]int{{4}, {2, 2}} {
+				for _, c := range []int{-1, 4} {
+					first := ss[0].kind == 'q' && c == -1 && len(shape) == 1
+					before := len(out)
+					add(scen{bcs: values(shape), subs: ss, closeAt: c, class: classDuring}, true, 2, 3, !first)
+					if first && len(out) > before {
+						out[len(out)-1].QuickMin = hx.Ptr(1)
+						prio[len(prio)-1] = 1
 					}
 				}
 			}
